@@ -1,9 +1,9 @@
 ------------------------------- MODULE MC_Opt -------------------------------
 EXTENDS Options
 Opt_All == {"json", "yaml", "toml", "dry", "exts1", "exts2", "exts0", "targetB", "targetA", "strict", "noiter",
-            "massive", "brL1", "brL2", "brI1", "nil"}
+            "massive", "mcancel", "brL1", "brL2", "brI1", "nil"}
 \* quick: one option per configuration field
-Opt_Quick == {"json", "toml", "dry", "exts1", "targetB", "strict", "noiter", "massive", "brL1", "nil"}
+Opt_Quick == {"json", "toml", "dry", "exts1", "targetB", "strict", "noiter", "massive", "mcancel", "brL1", "nil"}
 AllOps == {"output", "walk", "mkdir", "verify"}
 \* the tree as it is now: both deviations were repaired (fix 03dabce, fix 45df1cf)
 AsBuilt == {}
